@@ -86,6 +86,10 @@ fn init(t: &mut FuzzyHashCompareTarget, c: &Content, form: usize) -> Result<bool
         2 => guarded(|| t.init_from(&LongDualFuzzyHash::new_from_internals_near_raw(c.0, &c.1, &c.2)))?,
         3 if fits => guarded(|| t.init_from(DualFuzzyHash::new_from_internals_near_raw(c.0, &c.1, &c.2)))?,
         4 => guarded(|| *t = FuzzyHashCompareTarget::from(&LongFuzzyHash::new_from_internals_near_raw(c.0, &c.1, &c.2)))?,
+        5 => guarded(|| *t = FuzzyHashCompareTarget::from(LongFuzzyHash::new_from_internals_near_raw(c.0, &c.1, &c.2)))?,
+        6 => guarded(|| *t = FuzzyHashCompareTarget::from(LongDualFuzzyHash::new_from_internals_near_raw(c.0, &c.1, &c.2)))?,
+        7 if fits => guarded(|| *t = FuzzyHashCompareTarget::from(&DualFuzzyHash::new_from_internals_near_raw(c.0, &c.1, &c.2)))?,
+        8 if fits => guarded(|| *t = FuzzyHashCompareTarget::from(FuzzyHash::new_from_internals_near_raw(c.0, &c.1, &c.2)))?,
         _ => return Ok(false),
     }
     Ok(true)
@@ -138,7 +142,7 @@ impl Model for TargetModel {
     }
     fn actions(&self, _s: &TS, a: &mut Vec<(usize, usize)>) {
         for i in 0..self.hs.len() {
-            for f in 0..5 {
+            for f in 0..9 {
                 a.push((i, f));
             }
         }
@@ -413,7 +417,7 @@ pub fn run(ctx: &Ctx) -> Report {
     }
     rep.set(
         "target_space",
-        json!({"corpus": nh, "operand_forms": 5, "states": b.states, "transitions": b.transitions, "expected_states_if_property_holds": nh + 1,
+        json!({"corpus": nh, "operand_forms": 9, "states": b.states, "transitions": b.transitions, "expected_states_if_property_holds": nh + 1,
                "closed": !b.capped, "stateright_unique": sr.unique, "stateright_generated": sr.generated, "stateright_next_state_calls": t_trans, "bfs_depth": b.depth}),
     );
     // position array: depth-bounded over clear / init_from (the array is not Clone; histories are replayed)
@@ -495,7 +499,7 @@ pub fn run(ctx: &Ctx) -> Report {
     );
     rep.set(
         "rule",
-        "comparison target: BFS over the real FuzzyHashCompareTarget under init_from(h) for every h of a corpus of normalized hashes with differing lengths (0, 1, 7, 8, 32, 33, 63, 64 symbols), symbols and block sizes, each given as LongFuzzyHash, FuzzyHash, LongDualFuzzyHash, DualFuzzyHash operands and through From; the space closes at |H|+1 states iff nothing is carried over, so initialisation sequences of ANY length are covered; in every state: is_valid, full_eq a fresh target, is_equiv exactly the last hash, compare and is_comparison_candidate against every corpus hash equal the fresh target's, the block hash accessors represent the strings.  position array: all clear / init_from histories to the depth bound over a string corpus (not normalized strings included): equals a fresh array, len, is_valid, is_valid_and_normalized, is_equiv, has_common_substring, edit_distance agree with the string.",
+        "comparison target: BFS over the real FuzzyHashCompareTarget under init_from(h) for every h of a corpus of normalized hashes with differing lengths (0, 1, 7, 8, 32, 33, 63, 64 symbols), symbols and block sizes, each given as LongFuzzyHash, FuzzyHash, LongDualFuzzyHash, DualFuzzyHash operands to init_from and through the by-reference and by-value From impls; the space closes at |H|+1 states iff nothing is carried over, so initialisation sequences of ANY length are covered; in every state: is_valid, full_eq a fresh target, is_equiv exactly the last hash, compare and is_comparison_candidate against every corpus hash equal the fresh target's, the block hash accessors represent the strings.  position array: all clear / init_from histories to the depth bound over a string corpus (not normalized strings included): equals a fresh array, len, is_valid, is_valid_and_normalized, is_equiv, has_common_substring, edit_distance agree with the string.",
     );
     rep
 }
